@@ -110,10 +110,10 @@ PROPS = {
         explanation='Open scan proved; recovery behaviour bounded on real files.',
     ),
     'C16': dict(
-        v=['C16_verify', 'C16_append'], k=[], b=['c16_chain'],
-        pairs={'C16_verify': ['bounded:c16_chain'], 'C16_append': ['bounded:c16_chain']},
+        v=['C16_verify', 'C16_append', 'C16_merge'], k=[], b=['c16_chain'],
+        pairs={'C16_verify': ['bounded:c16_chain'], 'C16_append': ['bounded:c16_chain'], 'C16_merge': ['bounded:c16_chain']},
         level='other',
-        technique='Verus: Chain::append proved to admit a block only at tip+1 with the tip hash as prev_hash, a matching transaction root and (beyond the first block) a verifying signature, to advance the tip by exactly that block and to change nothing when it refuses (storage assumed infallible, lock erased); extracted Block::verify_chain and Chain::verify_chain proved (verification Ok => every height links to its predecessor and is signed when keys are registered; hash/tx-root/signature uninterpreted); bounded native checks of append guards, tamper detection, commit atomicity, replica determinism',
+        technique='Verus: TensorChain::find_and_merge_orthogonal proved to put into the block exactly the operations of the committing workspace followed by those of the workspaces it returns as merged (a rejected or unmarkable candidate contributes nothing); Chain::append proved to admit a block only at tip+1 with the tip hash as prev_hash, a matching transaction root and (beyond the first block) a verifying signature, to advance the tip by exactly that block and to change nothing when it refuses (storage assumed infallible, lock erased); extracted Block::verify_chain and Chain::verify_chain proved (verification Ok => every height links to its predecessor and is signed when keys are registered; hash/tx-root/signature uninterpreted); bounded native checks of append guards, tamper detection, commit atomicity, replica determinism',
         claim='chain walk soundness proved for every stored chain (Verus, crypto uninterpreted); BOUNDED: append guards, single/multi-mutation tamper detection on chains <= 4 blocks, workspace commit/rollback atomicity, state-root determinism',
         explanation='Verify walk proved; the remaining obligations bounded. Open known findings are listed in known_findings.json.',
     ),
